@@ -532,6 +532,14 @@ def main():
           + (f", cases {corr['evaluations']} (non-trivial distinct {len(corr['distinct'])}), lines {corr['lines']}" if corr else "")
           + f", {round(wall, 1)} s")
     if violations:
+        # a concrete failing input was found: it is the report; the obligations that no longer check
+        # (theorem, extractor anchor, harness build) are named in a line under it, not as inputless violations
+        concrete = [v for v in violations if v[1] == ""]
+        if concrete:
+            for path, suffix in violations:
+                if suffix:
+                    print(f"also no longer checks: {path}")
+            violations = concrete
         for path, suffix in violations:
             print(f"VIOLATION property={pid} replay={path}{suffix}")
         sys.exit(1)
